@@ -1311,7 +1311,8 @@ class C03(Prop):
                 res.count({"b": "calls_hit_blocking", "t": "calls_hit_blocking_with_tiny_timeout", "n": "calls_hit_nonblocking", "g": "calls_get_name_blocking",
                            "gn": "calls_get_name_nonblocking", "s": "calls_get_signals_blocking",
                            "sn": "calls_get_signals_nonblocking", "q": "calls_is_locked", "L": "calls_lock",
-                           "U": "calls_unlock", "F": "calls_force_unlock"}[op[0]])
+                           "U": "calls_unlock", "F": "calls_force_unlock", "P": "calls_returning_a_proxy",
+                           "E": "calls_with_enter", "X": "calls_with_exit"}[op[0]])
                 if op[0] in NONBLOCKING:
                     res.count("calls_nonblocking_waited" if nb in waited else "calls_nonblocking_never_waited")
                     nb += 1
@@ -1323,6 +1324,10 @@ class C03(Prop):
                       x[0] == "exec-enter" and x[2] == e[2] and x[3].startswith("lock:") for x in events)))
         res.count("scenarios_with_object_removal", 1 if scn.get("removals") else 0)
         res.count("scenarios_with_shared_proxies", 1 if scn.get("share") else 0)
+        res.count("objects_of_type_instrument", sum(1 for t in scn.get("objtypes", []) if t == "instr"))
+        for e in events:
+            if e[0] == "target":
+                res.count("call_target_obtained_by_" + e[2])
         res.count("calls_given_up_by_timeout_before_execution", sum(1 for e in events if e[0] == "result" and e[3] == "timeout"))
         res.count("requests_rejected_by_leaving_worker", sum(1 for e in events if e[0] == "reject"))
         res.count("requests_refused_unknown_destination", sum(1 for e in events if e[0] == "lookup" and not e[3]))
